@@ -23,7 +23,30 @@ import (
 
 type invFunc struct {
 	Recv, Sig string
-	Ord       int // declaration order within the configuration (file name, then offset)
+	Ord       int    // declaration order within the configuration (file name, then offset)
+	Pkg       string // module-relative package ("gtree", "markdown", "cmd/gtree")
+}
+
+// invNamed: a named type (Shape: field types in order / sorted method signatures / underlying type) or a
+// package-level variable or constant (Shape: its type).
+type invNamed struct {
+	Kind, Shape string
+	Ord         int
+}
+
+// canonical names of renamed named types, package-level objects and interface methods
+var canonTypes = map[*types.TypeName]string{}
+var canonObjs = map[types.Object]string{}
+var typeRenameRx []struct{ from, to string } // applied to rendered type strings
+
+func relPkg(pk *types.Package) string {
+	if pk == nil {
+		return ""
+	}
+	if pk.Path() == modulePath {
+		return "gtree"
+	}
+	return strings.TrimPrefix(pk.Path(), modulePath+"/")
 }
 type invField struct{ Name, Type string }
 
@@ -34,12 +57,280 @@ var canonFuncs = map[*ssa.Function]string{}
 var canonFields = map[string]map[string]string{}
 
 func relTypeString(t types.Type) string {
-	return types.TypeString(t, func(pk *types.Package) string {
+	s := types.TypeString(t, func(pk *types.Package) string {
 		if pk.Path() == modulePath {
 			return "gtree"
 		}
 		return strings.TrimPrefix(pk.Path(), modulePath+"/")
 	})
+	for _, r := range typeRenameRx {
+		s = replaceWord(s, r.from, r.to)
+	}
+	return s
+}
+
+// replaceWord replaces whole-identifier occurrences of from (a qualified name such as gtree.branchGrower).
+func replaceWord(s, from, to string) string {
+	if !strings.Contains(s, from) {
+		return s
+	}
+	var b strings.Builder
+	for i := 0; i < len(s); {
+		if strings.HasPrefix(s[i:], from) {
+			j := i + len(from)
+			if j == len(s) || !(s[j] == '_' || s[j] >= '0' && s[j] <= '9' || s[j] >= 'a' && s[j] <= 'z' || s[j] >= 'A' && s[j] <= 'Z') {
+				b.WriteString(to)
+				i = j
+				continue
+			}
+		}
+		b.WriteByte(s[i])
+		i++
+	}
+	return b.String()
+}
+
+// namedShape describes a named type, variable or constant for the inventory.
+func namedShape(obj types.Object) (invNamed, bool) {
+	switch o := obj.(type) {
+	case *types.TypeName:
+		if o.IsAlias() {
+			return invNamed{}, false
+		}
+		self := relPkg(o.Pkg()) + "." + o.Name()
+		defer func() {}()
+		if sh, ok := namedShapeOfType(o); ok {
+			sh.Shape = replaceWord(sh.Shape, self, "SELF")
+			if old, isR := canonTypes[o]; isR {
+				sh.Shape = replaceWord(sh.Shape, relPkg(o.Pkg())+"."+old, "SELF")
+			}
+			return sh, true
+		}
+		return invNamed{}, false
+	}
+	return namedShapeOfOther(obj)
+}
+
+func namedShapeOfType(o *types.TypeName) (invNamed, bool) {
+	{
+		switch u := o.Type().Underlying().(type) {
+		case *types.Struct:
+			var fs []string
+			for i := 0; i < u.NumFields(); i++ {
+				fs = append(fs, relTypeString(u.Field(i).Type()))
+			}
+			return invNamed{Kind: "struct", Shape: strings.Join(fs, ";")}, true
+		case *types.Interface:
+			var ms []string
+			for i := 0; i < u.NumMethods(); i++ {
+				ms = append(ms, relTypeString(u.Method(i).Type()))
+			}
+			sort.Strings(ms)
+			return invNamed{Kind: "interface", Shape: strings.Join(ms, ";")}, true
+		default:
+			return invNamed{Kind: "type", Shape: relTypeString(u)}, true
+		}
+	}
+}
+
+func namedShapeOfOther(obj types.Object) (invNamed, bool) {
+	switch o := obj.(type) {
+	case *types.Var:
+		return invNamed{Kind: "var", Shape: relTypeString(o.Type())}, true
+	case *types.Const:
+		return invNamed{Kind: "const", Shape: relTypeString(o.Type())}, true
+	}
+	return invNamed{}, false
+}
+
+// packageObjects: package-level types, variables and constants of the module in declaration order.
+func packageObjects(p *Prog) []types.Object {
+	var out []types.Object
+	for _, path := range sortedKeys(p.ModPkgs) {
+		scope := p.ModPkgs[path].Types.Scope()
+		for _, name := range scope.Names() {
+			switch scope.Lookup(name).(type) {
+			case *types.TypeName, *types.Var, *types.Const:
+				out = append(out, scope.Lookup(name))
+			}
+		}
+	}
+	sort.Slice(out, func(i, j int) bool {
+		a, b := p.Fset.Position(out[i].Pos()), p.Fset.Position(out[j].Pos())
+		if a.Filename != b.Filename {
+			return a.Filename < b.Filename
+		}
+		return a.Offset < b.Offset
+	})
+	return out
+}
+
+func objKey(o types.Object) string { return relPkg(o.Pkg()) + "." + o.Name() }
+
+// resolveNamedRenames pairs vanished package-level names with new ones of the same kind and shape
+// (declaration order breaks ties when the counts agree).  Two rounds, because shapes mention other types.
+func resolveNamedRenames(p *Prog) []string {
+	var notes []string
+	inv := inventoryNamed[invConfigName(p.Cfg)]
+	if inv == nil {
+		return nil
+	}
+	objs := packageObjects(p)
+	for round := 0; round < 3; round++ {
+		present := map[string]bool{}
+		for _, o := range objs {
+			present[objKey(o)] = true
+		}
+		type sk struct{ pkg, kind, shape string }
+		missBy := map[sk][]string{}
+		var order []sk
+		var missing []string
+		for k := range inv {
+			if !present[k] {
+				missing = append(missing, k)
+			}
+		}
+		sort.Slice(missing, func(i, j int) bool { return inv[missing[i]].Ord < inv[missing[j]].Ord })
+		pkgOf := func(k string) string { return k[:strings.LastIndex(k, ".")] }
+		for _, k := range missing {
+			key := sk{pkgOf(k), inv[k].Kind, inv[k].Shape}
+			if len(missBy[key]) == 0 {
+				order = append(order, key)
+			}
+			missBy[key] = append(missBy[key], k)
+		}
+		candBy := map[sk][]types.Object{}
+		for _, o := range objs {
+			if _, known := inv[objKey(o)]; known {
+				continue
+			}
+			if _, done := canonObjs[o]; done {
+				continue
+			}
+			sh, ok := namedShape(o)
+			if !ok {
+				continue
+			}
+			key := sk{relPkg(o.Pkg()), sh.Kind, sh.Shape}
+			candBy[key] = append(candBy[key], o)
+		}
+		progress := false
+		for _, key := range order {
+			ms, cs := missBy[key], candBy[key]
+			var free []string
+			for _, m := range ms {
+				taken := false
+				for _, v := range canonObjs {
+					if v == m {
+						taken = true
+					}
+				}
+				if !taken {
+					free = append(free, m)
+				}
+			}
+			if len(free) == 0 || len(free) != len(cs) {
+				continue
+			}
+			for i, k := range free {
+				o := cs[i]
+				canonObjs[o] = k
+				old := k[strings.LastIndex(k, ".")+1:]
+				if tn, isT := o.(*types.TypeName); isT {
+					canonTypes[tn] = old
+					typeRenameRx = append(typeRenameRx, struct{ from, to string }{relPkg(o.Pkg()) + "." + o.Name(), relPkg(o.Pkg()) + "." + old})
+				}
+				notes = append(notes, fmt.Sprintf("%s is analysed as %s (same kind and shape; the inventoried name is gone)", objKey(o), k))
+				progress = true
+			}
+		}
+		if !progress {
+			break
+		}
+	}
+	return notes
+}
+
+// objName: the inventoried name of a package-level object.
+func objName(o types.Object) string {
+	if o == nil {
+		return ""
+	}
+	if k, ok := canonObjs[o]; ok {
+		return k[strings.LastIndex(k, ".")+1:]
+	}
+	return o.Name()
+}
+
+// methodName: the inventoried name of an interface method (through the concrete methods' rename is not possible:
+// an abstract method has no body, so it is matched by signature within its interface).
+func methodName(m *types.Func) string {
+	if m == nil {
+		return ""
+	}
+	if n, ok := canonMethods[m]; ok {
+		return n
+	}
+	return m.Name()
+}
+
+var canonMethods = map[*types.Func]string{}
+
+func resolveMethodRenames(p *Prog) []string {
+	var notes []string
+	inv := inventoryIfaces[invConfigName(p.Cfg)]
+	for _, o := range packageObjects(p) {
+		tn, ok := o.(*types.TypeName)
+		if !ok {
+			continue
+		}
+		it, ok := tn.Type().Underlying().(*types.Interface)
+		if !ok {
+			continue
+		}
+		key := relPkg(o.Pkg()) + "." + objName(o)
+		want, ok := inv[key]
+		if !ok {
+			continue
+		}
+		have := map[string]bool{}
+		for i := 0; i < it.NumMethods(); i++ {
+			have[it.Method(i).Name()] = true
+		}
+		// vanished method names, by signature
+		missBySig := map[string][]string{}
+		for _, w := range want {
+			if !have[w.Name] {
+				missBySig[w.Type] = append(missBySig[w.Type], w.Name)
+			}
+		}
+		known := map[string]bool{}
+		for _, w := range want {
+			known[w.Name] = true
+		}
+		candBySig := map[string][]*types.Func{}
+		for i := 0; i < it.NumMethods(); i++ {
+			m := it.Method(i)
+			if !known[m.Name()] {
+				sig := relTypeString(m.Type())
+				candBySig[sig] = append(candBySig[sig], m)
+			}
+		}
+		for sig, ms := range missBySig {
+			cs := candBySig[sig]
+			if len(ms) != len(cs) {
+				continue
+			}
+			sort.Strings(ms)
+			sort.Slice(cs, func(i, j int) bool { return cs[i].Pos() < cs[j].Pos() })
+			if len(ms) > 1 {
+				continue // several methods of one signature renamed at once: cannot be told apart
+			}
+			canonMethods[cs[0]] = ms[0]
+			notes = append(notes, fmt.Sprintf("interface method %s.%s is analysed as %s", key, cs[0].Name(), ms[0]))
+		}
+	}
+	return notes
 }
 
 func funcShape(fn *ssa.Function) invFunc {
@@ -119,6 +410,8 @@ func invConfigName(c Config) string {
 // resolveRenames fills canonFuncs / canonFields for p.
 func resolveRenames(p *Prog) []string {
 	var notes []string
+	notes = append(notes, resolveNamedRenames(p)...)
+	notes = append(notes, resolveMethodRenames(p)...)
 	inv := inventoryFuncs[invConfigName(p.Cfg)]
 	if inv != nil {
 		tops := topLevelFuncs(p)
@@ -133,17 +426,11 @@ func resolveRenames(p *Prog) []string {
 			}
 		}
 		sort.Slice(missing, func(i, j int) bool { return inv[missing[i]].Ord < inv[missing[j]].Ord })
-		pkgOf := func(id string) string {
-			if i := strings.LastIndex(id, "."); i >= 0 {
-				return id[:i]
-			}
-			return id
-		}
 		type shapeKey struct{ pkg, recv, sig string }
 		missBy := map[shapeKey][]string{}
 		var order []shapeKey
 		for _, id := range missing {
-			k := shapeKey{pkgOf(id), inv[id].Recv, inv[id].Sig}
+			k := shapeKey{inv[id].Pkg, inv[id].Recv, inv[id].Sig}
 			if len(missBy[k]) == 0 {
 				order = append(order, k)
 			}
@@ -156,7 +443,7 @@ func resolveRenames(p *Prog) []string {
 				continue
 			}
 			sh := funcShape(f)
-			k := shapeKey{pkgOf(rid), sh.Recv, sh.Sig}
+			k := shapeKey{relPkg(pkgOfFunc(f).Pkg), sh.Recv, sh.Sig}
 			candBy[k] = append(candBy[k], f)
 		}
 		for _, k := range order {
@@ -185,7 +472,7 @@ func resolveRenames(p *Prog) []string {
 				continue
 			}
 			key := relTypeString(tn.Type())
-			want, ok := inventoryStructs[key]
+			want, ok := inventoryStructs[invConfigName(p.Cfg)][key]
 			if !ok || len(want) != st.NumFields() {
 				continue
 			}
@@ -245,56 +532,54 @@ func fname(f *ssa.Function) string {
 func genInventory(repo string) error {
 	var b strings.Builder
 	b.WriteString("package main\n\n// Code generated by `gtcheck -gen-inventory`; names confirmed on the reviewed tree.  DO NOT EDIT.\n\n")
-	b.WriteString("var inventoryFuncs = map[string]map[string]invFunc{\n")
-	structs := map[string][]invField{}
+	var fb, nb, sb, ib strings.Builder
 	for _, c := range []Config{cfgD, cfgW, cfgJ} {
 		p, err := loadConfig(repo, c)
 		if err != nil {
 			return err
 		}
-		fmt.Fprintf(&b, "\t%q: {\n", c.Name)
+		fmt.Fprintf(&fb, "\t%q: {\n", c.Name)
 		ord := 0
 		for _, f := range topLevelFuncs(p) {
 			sh := funcShape(f)
 			ord++
-			fmt.Fprintf(&b, "\t\t%q: {%q, %q, %d},\n", rawFuncID(f), sh.Recv, sh.Sig, ord)
+			fmt.Fprintf(&fb, "\t\t%q: {%q, %q, %d, %q},\n", rawFuncID(f), sh.Recv, sh.Sig, ord, relPkg(pkgOfFunc(f).Pkg))
 		}
-		b.WriteString("\t},\n")
-		for _, path := range sortedKeys(p.ModPkgs) {
-			scope := p.ModPkgs[path].Types.Scope()
-			for _, name := range scope.Names() {
-				tn, ok := scope.Lookup(name).(*types.TypeName)
-				if !ok {
-					continue
-				}
-				st, ok := tn.Type().Underlying().(*types.Struct)
-				if !ok {
-					continue
-				}
-				var fs []invField
-				for i := 0; i < st.NumFields(); i++ {
-					fs = append(fs, invField{st.Field(i).Name(), relTypeString(st.Field(i).Type())})
-				}
-				key := relTypeString(tn.Type())
-				if c.Name != "D" {
-					key2 := key
-					if _, dup := structs[key2]; dup {
-						continue // the default build's definition wins for shared names
+		fb.WriteString("\t},\n")
+		fmt.Fprintf(&nb, "\t%q: {\n", c.Name)
+		fmt.Fprintf(&sb, "\t%q: {\n", c.Name)
+		fmt.Fprintf(&ib, "\t%q: {\n", c.Name)
+		for i, o := range packageObjects(p) {
+			sh, ok := namedShape(o)
+			if !ok {
+				continue
+			}
+			fmt.Fprintf(&nb, "\t\t%q: {%q, %q, %d},\n", objKey(o), sh.Kind, sh.Shape, i+1)
+			if tn, isT := o.(*types.TypeName); isT {
+				switch u := tn.Type().Underlying().(type) {
+				case *types.Struct:
+					fmt.Fprintf(&sb, "\t\t%q: {", relTypeString(tn.Type()))
+					for i := 0; i < u.NumFields(); i++ {
+						fmt.Fprintf(&sb, "{%q, %q}, ", u.Field(i).Name(), relTypeString(u.Field(i).Type()))
 					}
+					sb.WriteString("},\n")
+				case *types.Interface:
+					fmt.Fprintf(&ib, "\t\t%q: {", objKey(o))
+					for i := 0; i < u.NumMethods(); i++ {
+						fmt.Fprintf(&ib, "{%q, %q}, ", u.Method(i).Name(), relTypeString(u.Method(i).Type()))
+					}
+					ib.WriteString("},\n")
 				}
-				structs[key] = fs
 			}
 		}
+		nb.WriteString("\t},\n")
+		sb.WriteString("\t},\n")
+		ib.WriteString("\t},\n")
 	}
-	b.WriteString("}\n\nvar inventoryStructs = map[string][]invField{\n")
-	for _, k := range sortedKeys(structs) {
-		fmt.Fprintf(&b, "\t%q: {", k)
-		for _, f := range structs[k] {
-			fmt.Fprintf(&b, "{%q, %q}, ", f.Name, f.Type)
-		}
-		b.WriteString("},\n")
-	}
-	b.WriteString("}\n")
+	b.WriteString("var inventoryFuncs = map[string]map[string]invFunc{\n" + fb.String() + "}\n\n")
+	b.WriteString("var inventoryNamed = map[string]map[string]invNamed{\n" + nb.String() + "}\n\n")
+	b.WriteString("var inventoryStructs = map[string]map[string][]invField{\n" + sb.String() + "}\n\n")
+	b.WriteString("var inventoryIfaces = map[string]map[string][]invField{\n" + ib.String() + "}\n")
 	fmt.Print(b.String())
 	return nil
 }
@@ -316,4 +601,20 @@ func astFieldName(pk *packages.Package, sel *ast.SelectorExpr) string {
 		}
 	}
 	return sel.Sel.Name
+}
+
+// lookupByCanonName finds a package-level object by its inventoried name.
+func lookupByCanonName(scope *types.Scope, name string) types.Object {
+	if o := scope.Lookup(name); o != nil {
+		if _, renamedAway := canonObjs[o]; !renamedAway {
+			return o
+		}
+	}
+	for _, n := range scope.Names() {
+		o := scope.Lookup(n)
+		if k, ok := canonObjs[o]; ok && k[strings.LastIndex(k, ".")+1:] == name {
+			return o
+		}
+	}
+	return nil
 }
